@@ -19,7 +19,7 @@ def copies_follow_check():
     out = []
     routes = {"setitem": lambda h: h.sp.__setitem__("a", 2), "attr": lambda h: setattr(h.sp, "a", 2), "assign": lambda h: setattr(h, "statepoint", {"a": 2, "b": 0}),
               "update_statepoint": lambda h: h.update_statepoint({"c": 3}), "del": lambda h: h.sp.__delitem__("b"), "nested": lambda h: setattr(h.sp.n, "x", 9)}
-    for made_from in ("materialised", "lazy"):
+    for made_from in ("materialised", "lazy", "moved"):
         for through in ("original", "copy"):
             for route, act in routes.items():
                 with project_scratch() as p:
@@ -28,6 +28,15 @@ def copies_follow_check():
                     if made_from == "materialised":
                         orig = j0
                         orig.statepoint()
+                    elif made_from == "moved":
+                        # a handle that was just moved here from another project (its state point is reloaded lazily afterwards)
+                        os.makedirs(p.path + "_other")
+                        other = signac.init_project(p.path + "_other")
+                        orig = other.open_job({"a": 1, "b": 1, "n": {"x": 1}}).init()
+                        orig.doc["d"] = 1
+                        orig.statepoint()
+                        j0.remove()
+                        orig.move(p)
                     else:
                         orig = signac.Project(p.path).open_job(id=j0.id)      # opened by id: the state point is not loaded yet
                     c = copy.copy(orig)
@@ -65,6 +74,6 @@ def run(tier="quick", seed=0):
     for sig, msg in copies_follow_check():
         r["failures"].append({"key": "copy:does-not-follow:" + sig, "description": msg,
                               "script": script_header() + "sys.path.insert(0, '/verif')\nfrom pybound.c04 import copies_follow_check\nr = copies_follow_check()\nassert not r, r\n"})
-    r["evaluations"] += 24
-    r["scope"] += "; shallow copies (made from a materialised / a lazy handle) x change through the original / the copy x 6 routes: every handle of the group describes the new job"
+    r["evaluations"] += 36
+    r["scope"] += "; shallow copies (made from a materialised / a lazy / a just moved handle) x change through the original / the copy x 6 routes: every handle of the group describes the new job"
     return r
